@@ -39,6 +39,16 @@ def key_order(k):
     return (not isinstance(k, int), k if isinstance(k, int) else str(k))
 
 
+def same_loc_groups(errs):
+    out = []
+    for e in errs:
+        if out and out[-1][0] == e["loc"]:
+            out[-1][1].append(e["err"])
+        else:
+            out.append((e["loc"], [e["err"]]))
+    return [(loc, sorted(msgs)) for loc, msgs in out]
+
+
 def run(tier):
     R = core.Run("C02", tier)
     R.trusted = core.TRUSTED_COMMON + ["model of validation/errors.py (merge_errors, errors flattening) and of the error "
@@ -110,7 +120,11 @@ def run(tier):
                     if k3 == "err" and (f["required"] or not fb):
                         expected.add(a)
                         mine = [dict(loc=e["loc"][1:], err=e["err"]) for e in errs if e["loc"][:1] == [a]]
-                        if mine != p3:
+                        # messages at one location come from the alternatives of a union; their relative order depends on the
+                        # strategy compiled (by-class dispatch reports the matching alternative first, the sequential
+                        # strategy, used when an alternative is a lazily resolved recursive type, follows the declaration
+                        # order): the statement fixes the order of locations, not of the messages sharing one
+                        if same_loc_groups(mine) != same_loc_groups(p3):
                             R.violation(f"errors of field {a!r} differ: alone {p3}, in context {mine}", c.to_json())
                             return
                 elif f["required"]:
